@@ -122,6 +122,132 @@ def _impl_shard(job) -> tuple[int, int, dict, int, list]:
     return tot, cnt, hist, ocnt, bad
 
 
+# ---- sharing the implementation runs across option vectors that cannot differ on a given text
+_TRACKED: list = []
+
+
+def _tracked_cls():
+    """Subclass of the real Tokenizer whose seven option attributes are properties recording every READ (bit i of
+    `_opt_reads` = OPTION_NAMES[i]); __init__'s writes go to private slots.  Two option vectors that agree on every option
+    read during a run follow the same execution path (the code is deterministic and reaches the options only through
+    these attributes), so the run of one IS the run of the other."""
+    if not _TRACKED:
+        from srctools.tokenizer import Tokenizer
+
+        class TrackedTokenizer(Tokenizer):
+            _opt_reads = 0
+
+        def mk(i: int, nme: str) -> property:
+            slot = '_opt_' + nme
+
+            def get(self):
+                self._opt_reads |= 1 << i
+                return self.__dict__[slot]
+
+            def put(self, v) -> None:
+                self.__dict__[slot] = v
+            return property(get, put)
+        for i, nme in enumerate(U.OPTION_NAMES):
+            setattr(TrackedTokenizer, nme, mk(i, nme))
+        _TRACKED.append(TrackedTokenizer)
+    return _TRACKED[0]
+
+
+def impl_results_tracked(data: Any, bits: int, ncalls: int) -> tuple[list[int], int]:
+    """U.impl_results on the tracked subclass: (encoded trace, bit mask of the options read, construction included)."""
+    from srctools.tokenizer import TokenSyntaxError
+    tk = _tracked_cls()(data, None, **U.opts_of_bits(bits))
+    out: list[int] = []
+    for _ in range(ncalls):
+        try:
+            t, v = tk()
+        except TokenSyntaxError as e:
+            i, args = U.err_code(e.mess)
+            ln = e.line_num if isinstance(e.line_num, int) else 0
+            out += [2, i, ln, len(args), *args]
+            if type(e) is not TokenSyntaxError or ln != tk.line_num:
+                out += [4, 1]
+            break
+        except BaseException as e:  # noqa: BLE001 - the property says nothing else may escape
+            out += [4, 0, *map(ord, type(e).__name__)]
+            break
+        out += [1, t.value, tk.line_num, int(tk._last_was_cr), len(v), *map(ord, v)]
+    return out, tk._opt_reads
+
+
+NGROUPS = 16          # option vectors 8g .. 8g+7 form group g (one Coq checksum per group)
+
+
+def _impl_shard_shared(job) -> tuple[list[int], int, dict, int, list, int, int, dict]:
+    """All 128 option vectors for the texts `pre + w`, |w| <= k, (pre, k) in the job: a vector is EXECUTED only if no executed vector agrees
+    with it on every option that run read; otherwise its trace is that run's trace.  Per text one derived vector
+    (pseudo-random) is executed anyway and compared (spot check of the independence argument).  The chunking oracle runs for
+    every executed vector (all cut sets up to `full_cuts` characters, beyond that the finest cut with empty chunks, the line
+    split and one pseudo-random cut set); a chunked run that reads an option the flat run did not read makes the oracle
+    run for every vector of that class.  Returns per-group checksums."""
+    pres, full_cuts = job
+    tots = [0] * NGROUPS
+    cnt = ocnt = real = spot_bad = 0
+    hist: dict[str, int] = {}
+    classes: dict[int, int] = {}
+    bad: list = []
+    for s in (pre + w for pre, k in pres for w in U.strings_upto(SYN_ALPHA, k)):
+        cuts = list(chunkings(s))
+        if len(s) <= full_cuts:
+            alts = cuts[1:] + ([with_empties(cuts[-1])] if s else [['', '']])
+        else:
+            alts = [with_empties(cuts[-1]), cuts[1 + (hash_small(s) % (len(cuts) - 1))]]
+        lines = s.splitlines(keepends=True)
+        if lines and lines not in alts and lines != [s]:
+            alts.append(lines)
+        nc = len(s) + 2
+        head = [len(s), *map(ord, s)]
+        entries: list[list] = []            # [mask, vals, ref, outcome, oracle_for_all]
+        spot = 1 + hash_small(s) % 127
+
+        def oracle(bits: int, mask: int, ref: list[int]) -> int:
+            nonlocal ocnt
+            extra = 0
+            for cs in alts:
+                ocnt += 1
+                got, rd = impl_results_tracked(iter(cs), bits, nc)
+                extra |= rd & ~mask
+                if got != ref and len(bad) < 50:
+                    bad.append(('chunk-dependence', s, bits, cs))
+            return extra
+        for bits in range(128):
+            ent = None
+            for e in entries:
+                if bits & e[0] == e[1]:
+                    ent = e
+                    break
+            if ent is None:
+                ref, mask = impl_results_tracked(s, bits, nc)
+                real += 1
+                k = _outcome(ref)
+                ent = [mask, bits & mask, ref, k, False]
+                entries.append(ent)
+                if k == 'foreign':
+                    bad.append(('foreign-exception', s, bits, None))
+                elif k == 'eof' and (ref[-5:] != [1, 0, ref[-3], ref[-2], 0] or ref[-10:-5] != ref[-5:]):
+                    bad.append(('EOF-not-for-ever', s, bits, None))
+                if len(bad) < 50 and oracle(bits, mask, ref):
+                    ent[4] = True
+            else:
+                if bits == spot:
+                    real += 1
+                    if U.impl_results(s, bits, nc) != ent[2]:
+                        spot_bad += 1
+                if ent[4] and len(bad) < 50:
+                    oracle(bits, 127, ent[2])
+            ref = ent[2]
+            tots[bits >> 3] = (tots[bits >> 3] + U.hash_list([bits, *head, *ref])) & U.M63
+            cnt += 1
+            hist[ent[3]] = hist.get(ent[3], 0) + 1
+        classes[len(entries)] = classes.get(len(entries), 0) + 1
+    return tots, cnt, hist, ocnt, bad, real, spot_bad, classes
+
+
 def hash_small(s: str) -> int:
     h = 7
     for c in s:
@@ -147,48 +273,103 @@ _REP_SET = frozenset(REPRESENTATIVE_BITS)
 QUICK_BITS = REPRESENTATIVE_BITS + [3, 5, 6, 9, 10, 12, 17, 20, 24, 33, 40, 48, 65, 68, 80, 96]    # + 16 pairs of options
 
 
-def corr_exhaustive(ck: Ck, escalate: bool) -> None:
+def shared_jobs(n: int, full_cuts: int, per_job: int = 1) -> list:
+    """Partition of all texts up to length n (n >= 2) into jobs for _impl_shard_shared: the texts shorter than 2, and one
+    (prefix, n - 2) pair per two-symbol prefix, `per_job` prefixes to a job."""
+    pairs = [(a + b, n - 2) for a in SYN_ALPHA for b in SYN_ALPHA]
+    return [([('', 1)], full_cuts)] + [(pairs[i:i + per_job], full_cuts) for i in range(0, len(pairs), per_job)]
+
+
+def run_shared(ck: Ck, n: int, full_cuts: int) -> tuple[list[int], int, dict, list, int, int, dict] | None:
+    """Implementation side of one exhaustive scope with the runs shared across option vectors (None: the spot check failed,
+    the independence argument does not hold for this source and the caller must execute every vector)."""
+    parts = U.pool_map(_impl_shard_shared, shared_jobs(n, full_cuts, 23 if n <= 3 else 8), workers=14)
+    if any(p[6] for p in parts):
+        ck.notes.append('option-read tracking: a vector derived from a run that read none of the options it differs in gave a different '
+                        'trace when executed (options are reached other than through the seven attributes?): every vector is executed instead')
+        return None
+    tots = [0] * NGROUPS
+    hist: dict[str, int] = {}
+    classes: dict[int, int] = {}
+    for p in parts:
+        for g in range(NGROUPS):
+            tots[g] = (tots[g] + p[0][g]) & U.M63
+        for k, v in p[2].items():
+            hist[k] = hist.get(k, 0) + v
+        for k, v in p[7].items():
+            classes[k] = classes.get(k, 0) + v
+    return tots, sum(p[1] for p in parts), hist, [(p[3], p[4]) for p in parts], sum(p[5] for p in parts), sum(p[3] for p in parts), classes
+
+
+GROUPS8 = [ALL_BITS[i:i + 8] for i in range(0, 128, 8)]
+
+
+def start_exhaustive_model(ck: Ck):
+    """Start the model side of the length-3 scope (16 coqc processes, one per group of 8 option vectors) in the background, so
+    that it overlaps with the sequential Print Assumptions / instance obligation runs.  Returns (executor, future)."""
     alpha = [ord(c) for c in SYN_ALPHA]
-    # quick: length <= 2 x all 128 option vectors and length <= 3 x 32 option vectors (every option alone on / alone off and 16
-    # pairs); thorough or escalated: length <= 3 x all 128 (every cut set); thorough also length <= 4 x 16 representative vectors.
-    big = ck.thorough or escalate
-    full_cuts = 3 if big else 2
-    if big:
-        phases = [(3, [ALL_BITS[i:i + 8] for i in range(0, 128, 8)], full_cuts)]
-    else:
-        phases = [(2, [ALL_BITS[i:i + 16] for i in range(0, 128, 16)], 2), (3, [QUICK_BITS[i:i + 2] for i in range(0, 32, 2)], 2)]
-    if ck.thorough:
-        phases.append((4, [[b] for b in REPRESENTATIVE_BITS], 2))
-    bad = []
-    ncases = 0
-    oracle_parts = []
-    for n, groups, fc in phases:
-        jobs = [[f'tok_shard_hash {U.coq_chars(g)} [] {U.coq_chars(alpha)} {n}'] for g in groups]
-        with ThreadPoolExecutor(1) as ex:         # the model side (coqc processes) runs while the implementation side is computed
-            fut = ex.submit(U.coq_eval_many, ck, jobs, f'c03exh{n}', timeout=840, workers=14)
-            totals = U.pool_map(_impl_shard, [(g, n, fc) for g in groups], workers=14)
+    jobs = [[f'tok_shard_hash {U.coq_chars(g)} [] {U.coq_chars(alpha)} 3'] for g in GROUPS8]
+    ex = ThreadPoolExecutor(1)
+    return ex, ex.submit(U.coq_eval_many, ck, jobs, 'c03exh3', timeout=840, workers=8)
+
+
+def corr_exhaustive(ck: Ck, escalate: bool, started=None) -> None:
+    """Every string over the syntax alphabet up to length 3 x ALL 128 option vectors in both tiers (thorough also length 4 x 128).
+    The model side evaluates every (text, vector) pair inside Coq.  The implementation side executes, per text, only vectors
+    that differ from every executed one in an option that run actually read (recorded by properties on a subclass) and
+    copies the trace for the others - quick tier and the length-4 scope; the thorough tier executes all 128 vectors up to
+    length 3, which also validates the sharing."""
+    alpha = [ord(c) for c in SYN_ALPHA]
+    full_cuts = 3 if (ck.thorough or escalate) else 2
+    bad: list = []
+    ncases = nreal = 0
+    oracle_parts: list = []
+    scopes = [(3, not ck.thorough)] + ([(4, True)] if ck.thorough else [])
+    for n, share in scopes:
+        jobs = [[f'tok_shard_hash {U.coq_chars(g)} [] {U.coq_chars(alpha)} {n}'] for g in GROUPS8]
+        with (started[0] if (n == 3 and started) else ThreadPoolExecutor(1)) as ex:   # the model side (coqc processes) runs while the implementation side is computed
+            fut = started[1] if (n == 3 and started) else ex.submit(U.coq_eval_many, ck, jobs, f'c03exh{n}', timeout=840, workers=14)
+            sh = run_shared(ck, n, full_cuts if n == 3 else 2) if share else None
+            if sh is not None:
+                tots, cnt, hist, oparts, real, _oc, classes = sh
+                for k, v in classes.items():
+                    ck.hist(f'corr_exhaustive_len{n}_executed_vectors_per_text', k, v)
+            else:
+                totals = U.pool_map(_impl_shard, [(g, n, full_cuts if n == 3 else 2) for g in GROUPS8], workers=14)
+                tots = [t[0] for t in totals]
+                cnt = real = sum(t[1] for t in totals)
+                hist = {}
+                for t_ in totals:
+                    for k, v in t_[2].items():
+                        hist[k] = hist.get(k, 0) + v
+                oparts = [(t_[3], t_[4]) for t_ in totals]
             res = fut.result()
-        oracle_parts += [(t[3], t[4]) for t in totals]
-        for g, r, (tot, cnt, hist, _oc, _ob) in zip(groups, res, totals):
-            ck.count('corr_exhaustive_cases', cnt)
-            ncases += cnt
-            for k, v in hist.items():
-                ck.hist('corr_exhaustive_outcome', k, v)
+        if n == 3:
+            oracle_parts = oparts
+        else:
+            oracle_parts = oracle_parts + oparts
+        ck.count('corr_exhaustive_cases', cnt)
+        ck.count('corr_exhaustive_cases_executed_on_the_implementation', real)
+        ncases += cnt
+        nreal += real
+        for k, v in hist.items():
+            ck.hist('corr_exhaustive_outcome', k, v)
+        for g, r, tot in zip(GROUPS8, res, tots):
             if r is None or U.parse_int63(r[0]) != tot:
                 bad.append(g)
     ck.extra['_oracle_from_corr'] = oracle_parts
-    ck.extra['_oracle_scope'] = (3, full_cuts) if big else (3, 2, 'quick')
+    ck.extra['_oracle_scope'] = (3, full_cuts)
     detail = ''
     if bad:
         detail = _locate(ck, bad[0], alpha)
         ck.tie_broken.append('correspondence Tokenizer vs Text/Tokenizer.v (exhaustive small scope)')
-    scope = (f'all strings over the {len(SYN_ALPHA)}-symbol syntax alphabet up to length 3 x all 128 option vectors' if big else
-             f'all strings over the {len(SYN_ALPHA)}-symbol syntax alphabet up to length 2 x all 128 option vectors and up to length 3 x 32 '
-             f'option vectors (each option alone on / alone off, 16 pairs)') + \
-            (' and up to length 4 x 16 representative option vectors' if ck.thorough else '')
+    scope = f'all strings over the {len(SYN_ALPHA)}-symbol syntax alphabet up to length 3' + (' and up to length 4' if ck.thorough else '') + \
+            ' x all 128 option vectors'
     ck.obligation('correspondence:tokenizer_exhaustive', not bad,
-                  f'real Tokenizer vs model: {scope} ({ncases} cases; token kind, value, line_num, _last_was_cr, error '
-                  f'site/argument/line; len+2 calls): ' + ('agree' if not bad else f'{len(bad)} option groups disagree; {detail}'))
+                  f'real Tokenizer vs model: {scope} ({ncases} cases, every one evaluated by the model; {nreal} executed on the implementation, '
+                  f'the others are vectors that agree with an executed vector on every option that run read - reads recorded by properties, one '
+                  f'such vector per text re-executed as a spot check; token kind, value, line_num, _last_was_cr, error site/argument/line; '
+                  f'len+2 calls): ' + ('agree' if not bad else f'{len(bad)} option groups disagree; {detail}'))
 
 
 def _locate(ck: Ck, bitsl: list[int], alpha: list[int]) -> str:
@@ -1081,9 +1262,9 @@ def search(ck: Ck, escalate: bool) -> None:
     res = ck.extra.pop('_oracle_from_corr', None)
     scope = ck.extra.pop('_oracle_scope', None)
     if res is None or (big and scope != (3, 3)):
-        groups = [ALL_BITS[i:i + 8] for i in range(0, 128, 8)] if big else [QUICK_BITS[i:i + 2] for i in range(0, 32, 2)]
-        scope = (3, 3) if big else (3, 2, 'quick')
-        res = [(t[3], t[4]) for t in U.pool_map(_impl_shard, [(g, scope[0], scope[1]) for g in groups], workers=14)]
+        scope = (3, 3) if big else (3, 2)
+        sh = run_shared(ck, scope[0], scope[1])
+        res = sh[3] if sh is not None else [(t[3], t[4]) for t in U.pool_map(_impl_shard, [(g, scope[0], scope[1]) for g in GROUPS8], workers=14)]
     for cnt, bad in res:
         ck.count('oracle_exhaustive_chunked_runs', cnt)
         for kind, s, bits, cs in bad[:3]:
@@ -1092,9 +1273,9 @@ def search(ck: Ck, escalate: bool) -> None:
         if s:
             for g in range(0, 128, 8):      # (text, option group) - an undercount of the distinct (text, options) cases
                 ck.seen(('ox', s, g))
-    ck.hist('oracle', f'all strings <= {scope[0]} over {len(SYN_ALPHA)} symbols x ' + ('128 option vectors' if len(scope) == 2 else
-            '32 option vectors (<= 2: all 128)') + f'; every cut set up to length {scope[1]}, beyond (16 representative option vectors: '
-            f'each option alone on / alone off): finest cut with empty chunks + one other cut set + line split', sum(c for c, _ in res))
+    ck.hist('oracle', f'all strings <= {scope[0]} over {len(SYN_ALPHA)} symbols x 128 option vectors (executed: the vectors that differ in an '
+            f'option the run read); every cut set up to length {scope[1]}, beyond: finest cut with empty chunks + one other cut set + line split',
+            sum(c for c, _ in res))
     # (b) random longer texts: random chunkings, per-character, lines; read bound; EOF for ever
     rng = ck.rng
     m = 20000 if big else 2500
@@ -1152,10 +1333,15 @@ def search(ck: Ck, escalate: bool) -> None:
 # ------------------------------------------------------------------------------------------------ main
 def _stage(ck: Ck, name: str) -> None:
     """Wall time per stage (evidence only)."""
+    import os
     import time
     now = time.time()
+    tm = os.times()
+    cpu = tm.user + tm.system + tm.children_user + tm.children_system
     ck.extra.setdefault('stage_seconds', {})[name] = round(now - ck.extra.get('_t_last', ck.t0), 1)
+    ck.extra.setdefault('stage_cpu_seconds', {})[name] = round(cpu - ck.extra.get('_cpu_last', 0.0), 1)
     ck.extra['_t_last'] = now
+    ck.extra['_cpu_last'] = cpu
 
 
 def run(ck: Ck) -> None:
@@ -1180,6 +1366,7 @@ def run(ck: Ck) -> None:
     ok_b = ck.translate('BaseTokSites_gen', c03_basetok.translate)
     built = ok_t and ok_k and ok_b and ck.build(['Props/C03.vo', 'Text/TokEnum.vo', 'Text/KvErrGen.vo', 'Text/BaseTokEnum.vo'])
     if built:
+        started = start_exhaustive_model(ck)
         ck.theorems('Props/C03.v')
         ck.instance_obligations(U.IMPORTS + ['SV.Text.TokenizerProofs'], {
             'EOF_is_not_an_operator_token': 'ops_no_eof gen_tables',
@@ -1207,7 +1394,7 @@ def run(ck: Ck) -> None:
             'push_back_keeps_the_value_of_value_tokens': 'value_tokens_keep_their_value',
         }, name='btinst')
         _stage(ck, 'translate+build+theorems+instances')
-        corr_exhaustive(ck, escalate)
+        corr_exhaustive(ck, escalate, started)
         _stage(ck, 'corr_exhaustive')
         corr_random(ck, escalate)
         _stage(ck, 'corr_random')
@@ -1218,6 +1405,7 @@ def run(ck: Ck) -> None:
     search(ck, escalate)
     _stage(ck, 'search')
     ck.extra.pop('_t_last', None)
+    ck.extra.pop('_cpu_last', None)
     if ck.violations:
         ck.explain('instance:')
         ck.explain('correspondence:')
